@@ -97,6 +97,108 @@ func EnumPDFFields(spec pdfw.DocSpec) []Fault {
 	return out
 }
 
+// EnumPDFPairs lists two-fault combinations that single faults and random pairs
+// do not reach: one fault turns a structure into a cycle (a reference in a
+// collection is pointed at its container or at what a sibling entry names), the
+// other makes a sibling entry's object fail to load or parse. The error path of a
+// recursive walk then runs inside the recursion that a depth or visited guard has
+// to stop, which is where a guard's bookkeeping is easiest to get wrong.
+func EnumPDFPairs(spec pdfw.DocSpec) [][]Fault {
+	var recs []recorded
+	hook := func(kind string, num int, o pdfw.Obj) pdfw.Obj {
+		recs = append(recs, recorded{num, kind, o})
+		return o
+	}
+	pdfw.GenerateHooked(spec, hook, nil)
+	plain := map[int][]byte{}
+	hasRaw := map[int]bool{}
+	dicts := map[int]pdfw.Obj{}
+	for _, rc := range recs {
+		switch rc.kind {
+		case "plain":
+			plain[rc.num] = rc.obj.(pdfw.Str).B
+		case "raw":
+			hasRaw[rc.num] = true
+		case "obj":
+			dicts[rc.num] = rc.obj
+		}
+	}
+	breakers := func(num int) []Fault {
+		var out []Fault
+		if data, ok := plain[num]; ok && looksLikeText(data) {
+			for _, repl := range []string{"(never closed", ") Tj", "<< /A", "[ 1 2", "1 0 0 1 0 0 cm >"} {
+				out = append(out, Fault{Layer: "pdfobj", Kind: "stream-text", A: int64(num), B: int64(0)<<20 | int64(len(data)), S: repl})
+			}
+			out = append(out, Fault{Layer: "pdfobj", Kind: "stream-text", A: int64(num), B: int64(len(data)/2)<<20 | int64(len(data)-len(data)/2), S: "("})
+		}
+		if hasRaw[num] {
+			out = append(out, Fault{Layer: "pdfobj", Kind: "stream-body", A: int64(num), B: 0}, Fault{Layer: "pdfobj", Kind: "stream-body", A: int64(num), B: 3})
+		}
+		if d, ok := dicts[num].(pdfw.Dict); ok {
+			for i, kv := range d {
+				if i >= 6 {
+					break
+				}
+				if n := variants(kv.V, 0); n > 0 {
+					out = append(out, Fault{Layer: "pdfobj", Kind: "field", A: int64(num), B: 0, S: "/K:" + kv.K})
+					out = append(out, Fault{Layer: "pdfobj", Kind: "field", A: int64(num), B: int64(n - 1), S: "/K:" + kv.K})
+				}
+			}
+		}
+		return out
+	}
+	type refField struct {
+		path   string
+		target int
+	}
+	var out [][]Fault
+	seen := map[int]bool{}
+	for _, rc := range recs {
+		if rc.kind != "obj" || seen[rc.num] {
+			continue
+		}
+		seen[rc.num] = true
+		groups := map[string][]refField{}
+		var order []string
+		walk(rc.obj, "", func(path string, v pdfw.Obj) {
+			if r, ok := v.(pdfw.Ref); ok {
+				parent := path[:strings.LastIndex(path, "/")]
+				if _, ok := groups[parent]; !ok {
+					order = append(order, parent)
+				}
+				groups[parent] = append(groups[parent], refField{path, r.Num})
+			}
+		})
+		for _, parent := range order {
+			g := groups[parent]
+			if len(g) < 2 || len(g) > 4 {
+				continue
+			}
+			for j, maker := range g {
+				// where the reference is pointed: at its container, and at what each sibling names
+				targets := []int{rc.num}
+				for i, sib := range g {
+					if i != j && sib.target != maker.target {
+						targets = append(targets, sib.target)
+					}
+				}
+				for _, tg := range targets {
+					mf := Fault{Layer: "pdfobj", Kind: "field-ref", A: int64(rc.num), B: int64(tg), S: maker.path}
+					for i, sib := range g {
+						if i == j || sib.target == tg {
+							continue
+						}
+						for _, bf := range breakers(sib.target) {
+							out = append(out, []Fault{mf, bf})
+						}
+					}
+				}
+			}
+		}
+	}
+	return out
+}
+
 func variants(v pdfw.Obj, root int) int {
 	switch v.(type) {
 	case int:
